@@ -485,7 +485,7 @@ def clean_desc(d):
 # Coq side: the specification evaluated on the same case
 # ----------------------------------------------------------------------------------
 
-PRELUDE = "From TskVerif Require Import Base.Common C04.Model.\nOpen Scope Z_scope."
+PRELUDE = "From TskVerif Require Import Base.Common C04.Model C04.SimplifyAlg.\nOpen Scope Z_scope."
 
 
 def coq_tables(tin):
@@ -505,9 +505,10 @@ def jz(xs):
     return "(jz_list %s)" % clist(xs)
 
 
-def canonical_J(case, obs):
-    """The C output in the shape of Model.result_J, or None when an output row cannot be
-    identified with an input row (reported by the oracle)."""
+def canonical_J(case, obs, table_order=False):
+    """The C output in the shape of Model.result_J (edges sorted by parent, child, left; or in
+    table order for the algorithm model), or None when an output row cannot be identified
+    with an input row (reported by the oracle)."""
     tin, out, nm = obs["in"], obs["out"], obs["node_map"]
     m = len(out["nodes"])
     inv = [NULL] * m
@@ -519,7 +520,9 @@ def canonical_J(case, obs):
     if NULL in inv:
         return None
     nodes = [[inv[v], out["nodes"][v][0], out["nodes"][v][2], out["nodes"][v][3]] for v in range(m)]
-    edges = sorted(([l, r, p, c] for l, r, p, c in out["edges"]), key=lambda e: (e[2], e[3], e[0]))
+    edges = [[l, r, p, c] for l, r, p, c in out["edges"]]
+    if not table_order:
+        edges.sort(key=lambda e: (e[2], e[3], e[0]))
     if any(x is None for e in edges for x in e):
         return None
     pos_in = {s[0]: j for j, s in enumerate(tin["sites"])}
@@ -554,6 +557,8 @@ def coq_term(case, obs, max_nodes=10):
         return None
     t, S, o = coq_tables(obs["in"]), clist(case["samples"], cn), coq_opts(case["opts"])
     term = "J_eqb (result_J (simplify_spec %s %s %s)) %s" % (t, S, o, j)
+    # the model of the C algorithm reproduces the tables row for row (edges in table order)
+    term += " && J_eqb (result_J (simplify_alg %s %s %s)) %s" % (t, S, o, canonical_J(case, obs, table_order=True))
     # the specification is a fixed point of itself exactly when the C code is
     if isinstance(obs.get("idem_diff"), list) and not any(d.startswith("error") for d in obs["idem_diff"]):
         term += " && Bool.eqb (spec_idempotent_on %s %s %s) %s" % (t, S, o, cbool(not obs["idem_diff"]))
